@@ -699,6 +699,15 @@ func Spec() *mon.Spec {
 			{Name: "generated", Quick: 3000, Thorough: 40000, Run: runGenerated},
 			{Name: "compileonly", Quick: 320, Thorough: 3000, Run: runCompileOnly, Procs: 8},
 		},
-		Floors: map[string]int{},
+		Floors: map[string]int{
+			"programs": 5000, "static_error_reported": 3500, "compile_errors": 2500, "parse_errors": 1000, "valid_programs": 1000,
+			"check_vs_eval_compared": 4000, "check_and_eval_agree_on_error": 2500, "check_and_eval_agree_on_valid": 1000,
+			"static_error_with_private_namespace": 700, "distinct_nontrivial": 3000,
+			"compileonly_runs": 100, "compileonly_rejected": 70, "compileonly_accepted": 20, "compileonly_json_compared": 40,
+			"class_undefined-variable": 300, "class_unknown-command-disallowed": 150, "class_tmp-at-top-level": 60,
+			"class_try-else-without-catch": 60, "class_parse-unclosed-paren": 60, "class_del-nonlocal": 50,
+			"placed_uncalled-fn": 400, "placed_uncalled-lambda": 400, "placed_if-false-body": 400, "placed_nested-lambda": 400,
+			"placed_capture": 150, "placed_pipeline-stage": 150,
+		},
 	}
 }
